@@ -26,9 +26,11 @@ inv (SF_PRIVATE *psf)
 {	sf_count_t F = psf->sf.frames ;
 	return F >= 0 && psf->read_current >= 0 && psf->read_current <= F
 		&& psf->write_current >= 0
-		&& (psf->last_op == SFM_READ || psf->last_op == SFM_WRITE)
+		&& (psf->last_op == SFM_READ || psf->last_op == SFM_WRITE || psf->last_op == SFM_RDWR)
 		&& mf [0].len == DOFF + F * BLK
-		&& mf [0].pos == DOFF + BLK * (psf->last_op == SFM_READ ? psf->read_current : psf->write_current)
+		/* (freshly opened: last_op == SFM_RDWR, read pointer 0, write pointer at the end, descriptor at the start of the data) */
+		&& (psf->last_op != SFM_RDWR || (psf->read_current == 0 && psf->write_current == F))
+		&& mf [0].pos == DOFF + BLK * (psf->last_op == SFM_WRITE ? psf->write_current : psf->read_current)
 		&& psf->file.mode == SFM_RDWR && psf->sf.channels == CH && psf->blockwidth == BLK ;
 }
 
@@ -67,11 +69,11 @@ main (void)
 	VASSUME (nd_wc >= 0 && nd_wc <= nd_frames + 1) ;
 	psf->read_current = nd_rc ;
 	psf->write_current = nd_wc ;
-	VASSUME (nd_lastop == SFM_READ || nd_lastop == SFM_WRITE) ;
+	VASSUME (nd_lastop == SFM_READ || nd_lastop == SFM_WRITE || (nd_lastop == SFM_RDWR && nd_rc == 0 && nd_wc == nd_frames)) ;
 	psf->last_op = nd_lastop ;
 	VASSUME (nd_written == SF_TRUE || nd_written == SF_FALSE) ;
 	psf->have_written = nd_written ;
-	mf [0].pos = DOFF + BLK * (nd_lastop == SFM_READ ? nd_rc : nd_wc) ;
+	mf [0].pos = DOFF + BLK * (nd_lastop == SFM_WRITE ? nd_wc : nd_rc) ;
 	VASSERT (inv (psf), "the arbitrary start state satisfies the RDWR invariant") ;
 	F = nd_frames ; rc0 = nd_rc ; wc0 = nd_wc ;
 
